@@ -85,6 +85,26 @@ def run(ctx: Ctx, tier: str) -> Result:
         else:
             res.fail(Finding("C16.ONCE", f.qname, c, f.loc(c), "the message is not sent to the configured tracepoint logger: %s" % recv))
 
+    # a failure while processing another result of the same hit must not swallow the log message (and vice versa)
+    from .c20 import isolation
+    for f, c in sites:
+        bad = isolation(ctx, f, c)
+        if bad is None:
+            res.ok("C16.ONCE", {"log delivery isolated from the other results of the hit": f.loc(c)})
+        else:
+            res.fail(Finding("C16.ONCE", f.qname, c, f.loc(c), "delivery of the log message is not isolated from the other results of the same hit: %s" % bad[2]))
+    tc_exit = p.func("deep.processor.context.trigger_context.TriggerContext.__exit__")
+    rp = [c for c in t.calls_in(tc_exit) if isinstance(c.func, ast.Attribute) and c.func.attr == "process"]
+    for c in rp:
+        lps = [l for l in paths.enclosing_loops(p, c, tc_exit) if isinstance(l, ast.For)]
+        ct = ctx.guards.catching_try(c, tc_exit, "Exception")
+        if lps and ct is not None and paths.within(p, ct[0], lps[0]) and not [n for n in ast.walk(lps[0]) if isinstance(n, (ast.Break, ast.Return))]:
+            res.ok("C16.ONCE", {"every result of the hit is processed, each in its own guard": tc_exit.loc(c)})
+        else:
+            res.fail(Finding("C16.ONCE", tc_exit.qname, c, tc_exit.loc(c),
+                             "results of one hit are not processed each inside its own guard: one failing result (e.g. a refused snapshot "
+                             "upload) drops the log messages queued behind it although their fire budget was used"))
+
     # ---------------- ROLE: implementations
     impls = [g_ for g_ in t.overrides(absf.cls.qname, "log_tracepoint")]
     res.floor("log_tracepoint implementations", len(impls), 1)
